@@ -46,7 +46,7 @@ class Program:
 
 class Gen:
     def __init__(self, rng, depth=4, pep695=True, layout=True, fstrings=True, crlf_in_fstring=False,
-                 unicode_names=True, stmts=(1, 6)):
+                 unicode_names=True, stmts=(1, 6), range_clean=False):
         self.r = rng
         self.depth = depth
         self.pep695 = pep695
@@ -55,6 +55,9 @@ class Gen:
         self.crlf_in_fstring = crlf_in_fstring
         self.unicode_names = unicode_names
         self.nstmts = stmts
+        # range_clean: keep the shapes of the listed C02 findings out (sole generator argument, f-string pieces
+        # in a concatenation, parenthesised walrus value, trailing `;` at the end of a block, defaults)
+        self.range_clean = range_clean
         self.br = 0            # bracket nesting while rendering
         self.infs = 0          # inside an f-string field
         self.fsq = []          # quote chars in use by enclosing f-strings
@@ -311,6 +314,8 @@ class Gen:
             n = self.ch([1, 1, 2, 3])
             return self.S().join(self.strpiece("b") for _ in range(n)) if (self.br or n == 1) else " ".join(self.strpiece("b") for _ in range(n))
         n = self.ch([1, 1, 1, 2, 2, 3])
+        if self.range_clean and self.infs:
+            n = 1
         pieces = []
         for _ in range(n):
             if self.fstrings and self.p(0.3) and self.infs < 2:
@@ -318,6 +323,8 @@ class Gen:
                 pieces.append(f if f is not None else self.strpiece("s"))
             else:
                 pieces.append(self.strpiece("s"))
+        if self.range_clean and any(_is_fpiece(x) for x in pieces):
+            pieces = [x for x in pieces if _is_fpiece(x)][:1]
         if any(_is_fpiece(x) for x in pieces):
             # known findings: an empty plain literal next to an f-string is kept as an empty Constant; a `u`
             # prefix does not reach the format-spec constants
@@ -381,7 +388,7 @@ class Gen:
         if r < 0.95:
             return "await" + self.S() + self.expr(d - 1, 15), 14
         if r < 0.98:
-            return self.name() + self.O() + ":=" + self.O() + self.expr(d - 1, 1), 0
+            return self.name() + self.O() + ":=" + self.O() + self.walrus_value(d - 1), 0
         with self.inbr():
             y = self.ch(["yield", "yield" + self.S() + self.exprlist(d - 1, star=True), "yield" + self.S() + "from" + self.S() + self.expr(d - 1, 1)])
             return "(" + y + ")", 16
@@ -452,8 +459,14 @@ class Gen:
         if self.p(0.12):
             return "*" + self.O() + self.expr(d, 6)
         if self.p(0.05):
-            return self.name() + self.O() + ":=" + self.O() + self.expr(d, 1)
+            return self.name() + self.O() + ":=" + self.O() + self.walrus_value(d)
         return self.expr(d, 1)
+
+    def walrus_value(self, d):
+        v = self.expr(d, 1)
+        if self.range_clean and v.lstrip().startswith("("):
+            return self.name()
+        return v
 
     def comp_for(self, d):
         out = []
@@ -478,7 +491,7 @@ class Gen:
             return base + self.ch(["", "", " "]) + "[" + self.O() + self.subscripts(d - 1) + self.O() + "]"
 
     def arglist(self, d, allow_genexp=True):
-        if allow_genexp and self.p(0.06):
+        if allow_genexp and self.p(0.06) and not self.range_clean:
             return self.expr(d, 1) + self.S() + self.comp_for(d)
         n = self.count(0)
         items = []
@@ -490,7 +503,7 @@ class Gen:
             r = self.r.random()
             if r < 0.45 and not seen_kw and not seen_dstar:
                 if self.p(0.08):
-                    items.append(self.name() + self.O() + ":=" + self.O() + self.expr(d, 1))
+                    items.append(self.name() + self.O() + ":=" + self.O() + self.walrus_value(d))
                 elif self.p(0.05):
                     with self.inbr():
                         items.append("(" + self.expr(d, 1) + self.S() + self.comp_for(d) + ")")
@@ -514,7 +527,7 @@ class Gen:
         r = self.r.random()
         if r < 0.5:
             if self.p(0.06):
-                return self.name() + ":=" + self.expr(d, 1)
+                return self.name() + ":=" + self.walrus_value(d)
             return self.expr(d, 1)
         lo = self.expr(d, 1) if self.p(0.6) else ""
         hi = self.expr(d, 1) if self.p(0.6) else ""
